@@ -259,9 +259,9 @@ def gen_mesh(o):
             T.fail(rel, s, "expected `if '<kind>' in ignore_elements:`")
         conts = []
         for c in s.body:
-            m = re.fullmatch(r"raw_mesh\.(\w+)\.clear\(\)", ast.unparse(c))
-            if not m:
-                T.fail(rel, c, "expected raw_mesh.<container>.clear()")
+            m = re.fullmatch(r"raw_mesh\.(\w+) = (?:Corner)?DataContainer\(id='(\w+)'\)", ast.unparse(c))
+            if not m or m.group(1) != m.group(2):
+                T.fail(rel, c, "expected raw_mesh.<container> = DataContainer(id='<container>')")
             conts.append(coq_str(m.group(1)))
         items.append("(%s, [%s])" % (coq_str(s.test.left.value), "; ".join(conts)))
     o.d("Definition save_ignore_table : list (string * list string) := [%s]." % "; ".join(items))
@@ -786,8 +786,318 @@ def gen_medit(o):
     o.d("Definition medit_imp_fields : list (string * Z * Z) := [%s]." % "; ".join(fields))
 
 
+
+# ---------------------------------------------------------------------------------------------- geogram_ascii
+def write_text(node, rel):
+    """text of a written constant / '...'.format(..) / f-string, placeholders as {}; None if not one of these"""
+    if str_const(node) is not None:
+        return node.value
+    fc = format_call(node)
+    if fc:
+        return fc[0]
+    if isinstance(node, ast.JoinedStr):
+        return "".join(v.value if isinstance(v, ast.Constant) else "{}" for v in node.values)
+    return None
+
+
+def slist(xs):
+    return "[" + "; ".join(coq_str(x) for x in xs) + "]"
+
+
+def gen_geogram(o):
+    rel = IO + "geogram_ascii.py"
+    src, tree = T.load(rel)
+    chunk = T.find_def(tree, "Chunk", rel)
+    o.src("geogram Chunk", src, chunk)
+    # chunk kinds
+    ty = T.find_def(tree, "Chunk.Type", rel)
+    vals = {s.targets[0].id: s.value.value for s in ty.body if isinstance(s, ast.Assign)}
+    fs = T.find_def(tree, "Chunk.Type.from_string", rel)
+    kinds = {}
+    for st in T.body_nodoc(fs):
+        m = re.fullmatch(r"if txt == '(\[\w+\])':\n    return cls\.(\w+)", ast.unparse(st))
+        if not m:
+            T.fail(rel, st, "unexpected Chunk.Type.from_string")
+        kinds[m.group(2)] = m.group(1)
+    if vals != {"HEAD": 0, "ATTR": 1, "ATTS": 2} or set(kinds) != set(vals):
+        T.fail(rel, ty, "unexpected chunk kinds")
+    for k in ("HEAD", "ATTR", "ATTS"):
+        o.d("Definition geo_kw_%s := %s." % (k.lower(), coq_str(kinds[k])))
+    ich = T.find_def(tree, "is_chunk_header", rel)
+    b = T.body_nodoc(ich)
+    marks = re.findall(r"'(\[\w+\])' in line", ast.unparse(b[0]))
+    if not (len(b) == 1 and isinstance(b[0], ast.Return) and isinstance(b[0].value, ast.BoolOp) and isinstance(b[0].value.op, ast.Or)
+            and len(marks) == len(b[0].value.values)):
+        T.fail(rel, ich, "unexpected is_chunk_header")
+    o.d("Definition geo_header_marks : list string := %s." % slist(marks))
+    # containers
+    ct = T.find_def(tree, "Chunk.Container", rel)
+    cvals = {s.targets[0].id: s.value.value for s in ct.body if isinstance(s, ast.Assign)}
+    want = {"VERTICES": 0, "EDGES": 1, "FACES": 2, "FACE_CORNERS": 3, "CELLS": 4, "CELL_CORNERS": 5, "CELL_FACETS": 6}
+    if cvals != want:
+        T.fail(rel, ct, "unexpected container enumeration")
+    cfs = T.find_def(tree, "Chunk.Container.from_string", rel)
+    tab = []
+    for st in T.body_nodoc(cfs):
+        m = re.fullmatch(r"if '(\w+)' in txt:\n    return cls\.(\w+)", ast.unparse(st))
+        if not m or m.group(2) not in cvals:
+            T.fail(rel, st, "unexpected Container.from_string")
+        tab.append("(%s, %d)" % (coq_str(m.group(1)), cvals[m.group(2)]))
+    o.d("(* Container.from_string: first substring found, in this order -> container code *)")
+    o.d("Definition geo_container_from : list (string * Z) := [%s]." % "; ".join(tab))
+    # Chunk.__init__ : positions
+    ini = T.find_def(tree, "Chunk.__init__", rel)
+    t = ast.unparse(ini)
+    pos = {}
+    for name, pat in (("type", r"self\.type: Chunk\.Type = Chunk\.Type\.from_string\(chunk_data\[(\d+)\]\)"),
+                      ("cont", r"self\.container: Chunk\.Container = Chunk\.Container\.from_string\(chunk_data\[(\d+)\]\)"),
+                      ("name", r"self\.name: str = chunk_data\[(\d+)\]"),
+                      ("dty", r"self\.data_type: Attribute\.Type = Attribute\.Type\.from_string\(chunk_data\[(\d+)\]\)"),
+                      ("bs", r"self\.data_size: int = int\(chunk_data\[(\d+)\]\)"),
+                      ("ar", r"self\.n_data: int = int\(chunk_data\[(\d+)\]\)"),
+                      ("n", r"self\.n: int = int\(chunk_data\[(\d+)\]\)")):
+        m = re.findall(pat, t)
+        if len(m) != 1:
+            T.fail(rel, ini, "Chunk.__init__: field %s not found" % name)
+        pos[name] = int(m[0])
+        o.d("Definition geo_pos_%s : Z := %d." % (name, pos[name]))
+    convs = re.findall(r"(?:if|elif) self\.data_type == Attribute\.Type\.(\w+):\n\s+self\.data = \[(.+?) for x in chunk_data\[(\d+):\]\]", t)
+    if convs != [("Float", "np.float64(x)", "6"), ("Int", "int(x)", "6"), ("Bool", "bool(int(x))", "6"), ("Complex", "complex(x)", "6")] \
+            or not re.search(r"else:\n\s+self\.data = chunk_data\[6:\]", t):
+        T.fail(rel, ini, "unexpected data conversions in Chunk.__init__ : %r" % (convs,))
+    o.d("Definition geo_pos_data : Z := 6.")
+    if pos["type"] != 0:
+        T.fail(rel, ini, "chunk kind is not read from the first line")
+    # attribute types (mesh_attributes.py)
+    rel2 = "mouette/mesh/mesh_attributes.py"
+    src2, tree2 = T.load(rel2)
+    aty = T.find_def(tree2, "_BaseAttribute.Type", rel2)
+    o.src("Attribute.Type", src2, aty)
+    members = [s.targets[0].id for s in aty.body if isinstance(s, ast.Assign)]
+    if members != ["Bool", "Int", "Float", "Complex", "String"]:
+        T.fail(rel2, aty, "unexpected attribute types")
+    ts = T.find_def(tree2, "_BaseAttribute.Type.to_string", rel2)
+    if [ast.unparse(x) for x in T.body_nodoc(ts)] != ["if self.name.lower() == 'float':\n    return 'double'", "return self.name.lower()"]:
+        T.fail(rel2, ts, "unexpected Type.to_string")
+    tostr = {m: ("double" if m.lower() == "float" else m.lower()) for m in members}
+    bsz = T.find_def(tree2, "_BaseAttribute.Type.byte_size", rel2)
+    bb = T.body_nodoc(bsz)
+    if not (len(bb) == 1 and isinstance(bb[0], ast.Return) and isinstance(bb[0].value, ast.Call) and isinstance(bb[0].value.func, ast.Attribute)
+            and isinstance(bb[0].value.func.value, ast.Dict) and ast.unparse(bb[0].value.args[0]) == "self.name"):
+        T.fail(rel2, bsz, "unexpected Type.byte_size")
+    dd = bb[0].value.func.value
+    sizes = {k.value: v.value for k, v in zip(dd.keys, dd.values)}
+    if set(sizes) != set(members) or not all(isinstance(v, int) for v in sizes.values()):
+        T.fail(rel2, bsz, "byte_size does not give an integer for every type (None would be written)")
+    fsn = T.find_def(tree2, "_BaseAttribute.Type.from_string", rel2)
+    acc = {}
+    for st in T.body_nodoc(fsn)[:-1]:
+        if not (isinstance(st, ast.If) and isinstance(st.test, ast.Compare) and isinstance(st.test.ops[0], ast.In)
+                and isinstance(st.test.comparators[0], ast.Set) and ast.unparse(st.test.left) == "txt" and len(st.body) == 1):
+            T.fail(rel2, st, "unexpected Type.from_string")
+        m = re.fullmatch(r"return cls\.(\w+)", ast.unparse(st.body[0]))
+        if not m or m.group(1) not in members:
+            T.fail(rel2, st, "unexpected Type.from_string target")
+        acc.setdefault(m.group(1), [])
+        acc[m.group(1)] += [e.value for e in st.test.comparators[0].elts]
+    if not isinstance(T.body_nodoc(fsn)[-1], ast.Raise) or set(acc) != set(members):
+        T.fail(rel2, fsn, "Type.from_string does not cover the five types")
+    o.d("(* attribute types: code (0 Bool 1 Int 2 Float 3 Complex 4 String), to_string, byte_size, texts accepted by from_string (in test order) *)")
+    order = [m.group(1) for m in re.finditer(r"return cls\.(\w+)", ast.unparse(fsn))]
+    rows = []
+    for name in order:
+        rows.append("(%d, %s, %d, %s)" % (members.index(name), coq_str(tostr[name]), sizes[name], slist(acc[name])))
+    o.d("Definition geo_types : list (Z * string * Z * list string) := [%s]." % "; ".join(rows))
+    # export
+    ea = T.find_def(tree, "export_attribute", rel)
+    o.src("export_attribute", src, ea)
+    want_ea = ("def export_attribute(f, size, container, attr, attr_name):\n"
+               "    f.write(f'[ATTR]\\n\"{container}\"\\n\"{attr_name}\"\\n\"{attr.type.to_string()}\"\\n{attr.type.byte_size()}\\n{attr.elemsize}\\n')\n"
+               "    for i in range(size):\n"
+               "        if attr.elemsize == 1:\n"
+               "            if attr.type == Attribute.Type.Bool:\n"
+               "                f.write(f'{int(attr[i])}\\n')\n"
+               "            else:\n"
+               "                f.write('{}\\n'.format(attr[i]))\n"
+               "        else:\n"
+               "            for j in range(attr.elemsize):\n"
+               "                if attr.type == Attribute.Type.Bool:\n"
+               "                    f.write(f'{int(attr[i][j])}\\n')\n"
+               "                else:\n"
+               "                    f.write(f'{attr[i][j]}\\n')")
+    if ast.unparse(ea) != want_ea:
+        T.fail(rel, ea, "export_attribute differs from the modelled text")
+    o.d("Definition geo_exp_user_kw := %s." % coq_str("[ATTR]"))
+    ex = T.find_def(tree, "export_geogram_ascii", rel)
+    o.src("export_geogram_ascii", src, ex)
+    heads = []
+    for c in walk_type(ex, ast.Call):
+        if isinstance(c.func, ast.Attribute) and c.func.attr == "write" and len(c.args) == 1:
+            tx = write_text(c.args[0], rel)
+            if tx and tx.startswith("["):
+                heads.append((c.lineno, c.col_offset, tx))
+    heads.sort()
+    roles = ["head", "atts_V", "attr_point", "atts_E", "attr_edge_vertex", "atts_F", "attr_facet_ptr", "atts_FC", "attr_fc_vertex",
+             "attr_fc_adj", "atts_C", "atts_CC", "attr_cc_vertex", "atts_CF", "attr_cf_adj"]
+    if len(heads) != len(roles):
+        T.fail(rel, ex, "expected %d chunk headers in export_geogram_ascii, found %d" % (len(roles), len(heads)))
+    for role, (_, _, tx) in zip(roles, heads):
+        parts = tx.split("\n")
+        if parts[-1] != "":
+            T.fail(rel, ex, "chunk header %r does not end a line" % tx)
+        parts = parts[:-1]
+        if role == "head":
+            o.d("Definition geo_exp_head : list string := %s." % slist(parts))
+        elif role.startswith("atts"):
+            if len(parts) != 3 or parts[2] != "{}":
+                T.fail(rel, ex, "unexpected [ATTS] header %r" % tx)
+            o.d("Definition geo_exp_%s : list string := %s." % (role, slist(parts[:2])))
+        else:
+            if len(parts) != 6 or not parts[4].isdigit() or not parts[5].isdigit():
+                T.fail(rel, ex, "unexpected [ATTR] header %r" % tx)
+            o.d("Definition geo_exp_%s : list string * Z * Z := (%s, %s, %s)." % (role, slist(parts[:4]), parts[4], parts[5]))
+    uc = []
+    for c in walk_type(ex, ast.Call):
+        if T.dotted(c.func) == "export_attribute":
+            if len(c.args) != 5 or str_const(c.args[2]) is None:
+                T.fail(rel, c, "unexpected export_attribute call")
+            uc.append((c.lineno, ast.unparse(c.args[1]), c.args[2].value, ast.unparse(c.args[3]), ast.unparse(c.args[4])))
+    uc.sort()
+    if [(a, d, e) for _, a, _, d, e in uc] != [("n_vert", "attr", "attr_key"), ("n_edges", "attr", "attr_key"), ("n_face", "attr", "attr_key"),
+                                              ("n_corners", "attr", "attr_key"), ("n_cells", "attr", "attr_key"), ("n_corners", "attr", "attr_key"),
+                                              ("n_cell_faces", "attr", "attr_key")]:
+        T.fail(rel, ex, "unexpected export_attribute calls")
+    o.d("(* container names handed to export_attribute, for vertices, edges, faces, face corners, cells, cell corners, cell faces *)")
+    o.d("Definition geo_exp_user_cont : list string := %s." % slist([c for _, _, c, _, _ in uc]))
+    ext = ast.unparse(ex)
+    for needle in ("if any((len(face) != 3 for face in mesh.faces)):", "ptr += len(face)", "for c in mesh.face_corners:\n                f.write(f'{c}\\n')",
+                   "f.write(f'{edge[0]}\\n{edge[1]}\\n')", "f.write('{}\\n{}\\n{}\\n'.format(*mesh.vertices[i]))",
+                   "f.write(f'{cell_adj[iC, iF]}\\n')", "for iF in range(len(cell)):", "n_cell_faces = sum([len(c) for c in mesh.cells])",
+                   "n_corners = sum([len(cell) for cell in mesh.cells])", "for cell in mesh.cells:\n                for x in cell:\n                    f.write(f'{x}\\n')"):
+        if needle not in ext:
+            T.fail(rel, ex, "export_geogram_ascii: expected statement not found: %r" % needle)
+    # import
+    im = T.find_def(tree, "import_geogram_ascii", rel)
+    o.src("import_geogram_ascii", src, im)
+    o.src("import_attribute", src, T.find_def(tree, "import_attribute", rel))
+    it = ast.unparse(im)
+    if "data = [x.split('#')[0].strip() for x in f.readlines()]" not in it:
+        T.fail(rel, im, "unexpected line clean-up")
+    ptrs = re.findall(r"chk\.type == Chunk\.Type\.ATTR and chk\.name == '(\"[^']+\")'", it)
+    if len(ptrs) != 2:
+        T.fail(rel, im, "facet_ptr / cell_ptr tests not found")
+    o.d("Definition geo_imp_facet_ptr := %s." % coq_str(ptrs[0]))
+    o.d("Definition geo_imp_cell_ptr := %s." % coq_str(ptrs[1]))
+    sk = re.findall(r"elif ((?:chk\.name == '\"[^']+\"'(?: or )?)+):\n\s+continue", it)
+    if len(sk) != 1:
+        T.fail(rel, im, "the branch skipping the *_ptr chunks was not found")
+    o.d("(* [ATTR] chunks the main pass skips *)")
+    o.d("Definition geo_imp_skip : list string := %s." % slist(re.findall(r"'(\"[^']+\")'", sk[0])))
+    m3 = re.findall(r"n_corner_in_facet = \[(\d+)\] \* container_sizes\[Chunk\.Container\.FACES\]", it)
+    m4 = re.findall(r"n_corner_in_cell = \[(\d+)\] \* container_sizes\[Chunk\.Container\.CELLS\]", it)
+    if len(m3) != 1 or len(m4) != 1:
+        T.fail(rel, im, "default facet / cell sizes not found")
+    o.d("Definition geo_imp_default_facet : Z := %s." % m3[0])
+    o.d("Definition geo_imp_default_cell : Z := %s." % m4[0])
+    sp = re.findall(r"chk\.container == Chunk\.Container\.(\w+) and chk\.name == '(\"[^']+\")':\n\s+assert chk\.n_data == (\d+)", it)
+    if [c for c, _, _ in sp] != ["VERTICES", "EDGES", "FACE_CORNERS", "FACE_CORNERS", "CELL_CORNERS", "CELL_FACETS"]:
+        T.fail(rel, im, "unexpected special chunks %r" % (sp,))
+    o.d("(* chunks read as geometry / connectivity: container code, name line, asserted arity; in the order point, edge_vertex, facet corner_vertex, corner_adjacent_facet, cell corner_vertex, adjacent_cell *)")
+    o.d("Definition geo_imp_special : list (Z * string * Z) := [%s]." % "; ".join("(%d, %s, %s)" % (cvals[c], coq_str(n), k) for c, n, k in sp))
+    opp = re.findall(r"create_attribute\('(\w+)', int, default_value=NOT_AN_ID\)", it)
+    if len(opp) != 2:
+        T.fail(rel, im, "opposite_face / opposite_cell attributes not found")
+    o.d("Definition geo_imp_opp_face := %s." % coq_str(opp[0]))
+    o.d("Definition geo_imp_opp_cell := %s." % coq_str(opp[1]))
+    if "attr = container.create_attribute(chk.name.split('\"')[1], chk.data_type, chk.n_data)" not in it:
+        T.fail(rel, im, "user attribute creation not found")
+    ia = ast.unparse(T.find_def(tree, "import_attribute", rel))
+    want_ia = ("def import_attribute(chk: Chunk, attr: Attribute):\n    for i in range(len(chk.data) // chk.n_data):\n        val = []\n"
+               "        for j in range(chk.n_data):\n            val.append(chk.data[chk.n_data * i + j])\n"
+               "        if chk.n_data == 1 and val[0] != attr.default_value:\n            attr[i] = val[0]\n"
+               "        elif chk.n_data > 1:\n            attr[i] = val")
+    if ia != want_ia:
+        T.fail(rel, im, "import_attribute differs from the modelled text")
+    rel3 = "mouette/config.py"
+    src3, tree3 = T.load(rel3)
+    nid = [s for s in tree3.body if isinstance(s, ast.Assign) and T.dotted(s.targets[0]) == "NOT_AN_ID"]
+    if len(nid) != 1 or not isinstance(nid[0].value, ast.Constant):
+        T.fail(rel3, tree3, "NOT_AN_ID not found")
+    o.d("Definition geo_not_an_id : Z := %d." % nid[0].value.value)
+
+
+# ---------------------------------------------------------------------------------------------- stl
+def gen_stl(o):
+    rel = IO + "stl.py"
+    src, tree = T.load(rel)
+    cls = T.find_def(tree, "Binary_STL_Writer", rel)
+    o.src("Binary_STL_Writer", src, cls)
+    consts = {s.targets[0].id: s.value.value for s in cls.body if isinstance(s, ast.Assign) and isinstance(s.value, ast.Constant)}
+    if consts.get("BINARY_HEADER") != "80sI" or consts.get("BINARY_FACET") != "12fH":
+        T.fail(rel, cls, "unexpected struct formats %r" % (consts,))
+    wh = T.find_def(tree, "Binary_STL_Writer._write_header", rel)
+    t = [ast.unparse(x) for x in T.body_nodoc(wh)]
+    m = re.fullmatch(r"self\.fp\.write\(struct\.pack\(Binary_STL_Writer\.BINARY_HEADER, b'([ -~]*)', self\.counter\)\)", t[1]) if len(t) == 2 else None
+    if t[0] != "self.fp.seek(0)" or not m:
+        T.fail(rel, wh, "unexpected _write_header")
+    o.d("Definition stl_header_text := %s." % coq_str(m.group(1)))
+    wt = T.find_def(tree, "Binary_STL_Writer._write_triangle", rel)
+    b = T.body_nodoc(wt)
+    params = [a.arg for a in wt.args.args]
+    if len(params) != 4 or ast.unparse(b[0]) != "self.counter += 1" or ast.unparse(b[2]) != "self.fp.write(struct.pack(Binary_STL_Writer.BINARY_FACET, *data))":
+        T.fail(rel, wt, "unexpected _write_triangle")
+    lst = b[1].value
+    if not (isinstance(b[1], ast.Assign) and ast.unparse(b[1].targets[0]) == "data" and isinstance(lst, ast.List) and len(lst.elts) == 13):
+        T.fail(rel, b[1], "data is not a list of 12 floats and the attribute word")
+    lay = []
+    for e in lst.elts[:12]:
+        if isinstance(e, ast.Constant) and isinstance(e.value, float) and e.value == 0.0:
+            lay.append("(-1, 0)")
+        elif isinstance(e, ast.Subscript) and isinstance(e.value, ast.Name) and e.value.id in params[1:] and isinstance(e.slice, ast.Constant):
+            lay.append("(%d, %d)" % (params[1:].index(e.value.id), e.slice.value))
+        else:
+            T.fail(rel, e, "unexpected entry of data")
+    last = lst.elts[12]
+    if not (isinstance(last, ast.Constant) and isinstance(last.value, int)):
+        T.fail(rel, last, "attribute word is not an int constant")
+    o.d("(* the 12 floats of a facet: (-1, _) = the constant 0., (k, i) = coordinate i of the k-th point *)")
+    o.d("Definition stl_tri_layout : list (Z * Z) := [%s]." % "; ".join(lay))
+    o.d("Definition stl_tri_attr : Z := %d." % last.value)
+    wr = T.find_def(tree, "Binary_STL_Writer.write", rel)
+    b = T.body_nodoc(wr)
+    if [ast.unparse(b[0]), ast.unparse(b[2])] != ["self._write_header()", "self._write_header()"] or not isinstance(b[1], ast.For) \
+            or ast.unparse(b[1].iter) != "mesh.faces" or ast.unparse(b[1].body[0]) != "pts = [mesh.vertices[v] for v in %s]" % b[1].target.id:
+        T.fail(rel, wr, "unexpected write")
+    chain, orelse = if_chain(b[1].body[1])
+    if not (len(orelse) == 1 and isinstance(orelse[0], ast.Raise)):
+        T.fail(rel, wr, "other face sizes do not raise")
+    split = []
+    for test, body in chain:
+        m = re.fullmatch(r"len\(%s\) == (\d+)" % b[1].target.id, ast.unparse(test))
+        if not m:
+            T.fail(rel, test, "unexpected face size test")
+        tris = []
+        for st in body:
+            tx = ast.unparse(st)
+            if tx == "self._write_triangle(*pts)":
+                tris.append(list(range(int(m.group(1)))))
+                continue
+            mm = re.fullmatch(r"self\._write_triangle\(pts\[(\d+)\], pts\[(\d+)\], pts\[(\d+)\]\)", tx)
+            if not mm:
+                T.fail(rel, st, "unexpected triangle call")
+            tris.append([int(g) for g in mm.groups()])
+        if any(len(t) != 3 for t in tris):
+            T.fail(rel, test, "a triangle call does not get 3 points")
+        split.append("(%s, [%s])" % (m.group(1), "; ".join(zlist(t) for t in tris)))
+    o.d("(* face size -> the point triples handed to _write_triangle *)")
+    o.d("Definition stl_face_split : list (Z * list (list Z)) := [%s]." % "; ".join(split))
+    ex = T.find_def(tree, "export_stl", rel)
+    o.src("export_stl", src, ex)
+    if "writer = Binary_STL_Writer(fp)" not in ast.unparse(ex) or "writer.write(mesh)" not in ast.unparse(ex) or "open(path, 'wb')" not in ast.unparse(ex):
+        T.fail(rel, ex, "unexpected export_stl")
+
 # ---------------------------------------------------------------------------------------------- main
-GENS = [gen_io, gen_mesh, gen_xyz, gen_obj, gen_off, gen_tet, gen_medit]
+GENS = [gen_io, gen_mesh, gen_xyz, gen_obj, gen_off, gen_tet, gen_medit, gen_geogram, gen_stl]
 
 
 def gen():
